@@ -352,6 +352,80 @@ def scenarios(quick):
     out.append(Scenario('cell type 1 without face type', 2, [1, 0]))
     return out
 
+def wire_part(chk, quick):
+    """consumer side of "the values then govern the run they are named after": the real solver constructor with the global parameters symbolic.
+    What it hands to the mesh refiner, the time integrator and the contact model, and the initial target volume it derives from
+    initial_pressure and bulk_modulus, must be the named parameters (edge length band [l_min, 3 l_min] as documented)."""
+    from irsym import envstubs
+    from fractions import Fraction
+    ir = build.build_ir(['h_num.cpp']); nat = build.build_native(['h_num.cpp'])
+    native = api.Native(nat)
+    ov = {}
+    ov.update(envstubs.fs_stubs()); ov.update(envstubs.writer_stubs())
+    def setup(it): it.strict_undef = False
+    names = ['w_dt', 'w_damping', 'w_lmin', 'w_cut_adh', 'w_cut_rep', 'w_p0', 'w_K']
+    V = [S.var(n) for n in names]
+    dt, damp, lmin, ca, cr, p0, K = V
+    pre = [S.cmp('gt', v, S.ZERO) for v in (dt, damp, lmin, ca, cr, K)]
+    # validation
+    sc = api.Session(ir, mode='ieee', overrides=ov, setup=setup)
+    for k, din in enumerate(([1e-3, 2.0, 0.3, 0.25, 0.125, 0.5, 10.0], [0.5, 0.25, 1.5, 0.0625, 0.75, -2.0, 3.0])):
+        r = sc.run('h_c18_wire', din, [k % 2]); q = native.call('h_c18_wire', din, [k % 2])
+        chk.validation['inputs'] += 1
+        if r.status != 'ok' or q.get('status') != 0 or r.iout != q['i'] or not all(api.same_double(a, b) for a, b in zip(r.dout, q['d'])):
+            chk.validation['mismatches'] += 1; chk.note('wire part: validation mismatch %r: %r' % (din, (r.status, getattr(r, 'error', None))))
+    chk.validation['programs'] += 1
+    chk.functions |= sc.functions_called
+    z = SV.Z3Ctx()
+    sess = api.Session(ir, mode='real', overrides=ov, setup=setup)
+    for swap in (0, 1):
+        ctl, res = sess.explore('h_c18_wire', V, [swap], assumptions=pre, zctx=z, max_paths=16, branch_timeout_ms=5000)
+        chk.paths += ctl.paths_done
+        done = [(tr, pc, r) for (tr, pc, r) in res if getattr(r, 'status', None) != 'pathend']
+        if not ctl.exhausted or not done:
+            chk.fail_closed.append('wire part: exploration incomplete'); continue
+        for (tr, pc, r) in done:
+            tag = 'solver constructor, edge swap %s/path %s' % ('on' if swap else 'off', ''.join('T' if d.taken else 'F' for d in tr) or '-')
+            if r.status != 'ok':
+                chk.fail_closed.append('wire part: %s ended with %s %r' % (tag, r.status, getattr(r, 'error', None))); continue
+            o = [S.R(x) if not isinstance(x, S.Node) else x for x in r.dout]
+            vol = o[8]
+            mx = S.ite(S.cmp('gt', cr, ca), cr, ca)
+            claims = [('the refiner gets l_min = min_edge_length', S.cmp('eq', o[0], lmin)), ('the refiner gets l_max = 3 min_edge_length', S.cmp('eq', o[1], S.mul(S.const(3), lmin))),
+                      ('the integrator gets the time step', S.cmp('eq', o[2], dt)), ('the integrator gets the damping coefficient', S.cmp('eq', o[3], damp)),
+                      ('the contact model gets the adhesion cut-off', S.cmp('eq', o[4], ca)), ('the contact model gets the repulsion cut-off', S.cmp('eq', o[5], cr)),
+                      ('face boxes are padded by the larger cut-off', S.cmp('eq', o[6], mx)),
+                      ('grid voxel = 3 min_edge_length + 2 paddings', S.cmp('eq', o[7], S.add(S.mul(S.const(3), lmin), S.mul(S.const(2), mx)))),
+                      ('initial target volume = V exp(initial_pressure / bulk_modulus)', S.cmp('eq', o[9], S.mul(vol, S.uf('exp', S.div(p0, K)))))]
+            sw = r.iout[0]
+            ok_sw = (not isinstance(sw, S.Node)) and (sw != 0) == bool(swap)
+            chk.ob(tag + '/the refiner gets the edge swap switch', 'proved' if ok_sw else 'violated', True, 0)
+            bad = [] if ok_sw else [('the refiner gets the edge swap switch', None)]
+            for (nm, cl) in claims:
+                st, m = SV.prove(z, list(pc), cl, 10000)
+                chk.queries += 1
+                chk.ob(tag + '/' + nm, st, True, 0)
+                if st == 'violated': bad.append((nm, m))
+            chk.witnesses += 1
+            for (nm, m) in bad[:1]:
+                g = lambda n_, d_: float(Fraction((m or {}).get(n_, d_)))
+                din = [g('w_dt', 0.001), g('w_damping', 2.0), g('w_lmin', 0.3), g('w_cut_adh', 0.25), g('w_cut_rep', 0.125), g('w_p0', 0.5), g('w_K', 10.0)]
+                q = native.call('h_c18_wire', din, [swap])
+                probs = []
+                if q.get('status') == 0:
+                    d = q['d']; mxn = max(din[3], din[4])
+                    import math
+                    exp = [din[2], 3 * din[2], din[0], din[1], din[3], din[4], mxn, 3 * din[2] + 2 * mxn, None, d[8] * math.exp(din[5] / din[6]), None]
+                    lab = ['l_min', 'l_max', 'integrator time step', 'integrator damping', 'adhesion cut-off', 'repulsion cut-off', 'box padding', 'voxel size', '', 'initial target volume', '']
+                    for a, b, l in zip(d, exp, lab):
+                        if b is not None and abs(a - b) > 1e-9 * max(1.0, abs(b)): probs.append('%s is %r, the parameters give %r' % (l, a, b))
+                    if (q['i'][0] != 0) != bool(swap): probs.append('edge swap switch %r for enable_edge_swap_operation = %r' % (q['i'][0], bool(swap)))
+                rep = {'din': din, 'iin': [swap], 'problems': probs, 'how': 'harness h_c18_wire (/verif/harness/h_num.cpp), native build: real solver constructor, members read back'}
+                if probs: chk.violation('C18/wiring/solver constructor/%s' % nm, '%s: %s' % (tag, '; '.join(probs[:3])), rep)
+                else: chk.fail_closed.append('wire part: "%s" refuted by the solver, native run agrees with the parameters' % nm)
+    chk.functions |= sess.functions_called
+    native.close()
+
 def main(chk):
     quick = chk.tier == 'quick'
     ir = build.build_ir(['h_params.cpp'], extra_flags=['-fno-pic'])
@@ -429,6 +503,7 @@ def main(chk):
             else:
                 chk.fail_closed.append('%s: solver model for "%s" did not reproduce natively (%r)' % (sc.name, what, {k: nat_out.get(k) for k in ('accepted', 'cls', 'status')}))
     native.close()
+    wire_part(chk, quick)
     chk.finish(level='other', explanation=(
         'Per file structure the real reader is executed symbolically (values of all numeric tags are symbols, tinyxml2 navigation and strtod/strtol are an environment table); every path is an accept or a reject. '
         'z3 proves: accept => each documented constraint; accept => every field equals the symbol of its own tag (doubles by DAG identity, integers and booleans by query), names/counts/order as written, INF -> +infinity; '
